@@ -727,11 +727,90 @@ fn mask(len: u32) -> u32 { if len == 0 { 0 } else { (!0u32) << (32 - len) } }
 '''
 
 
+ROUTER_SIM_REPLAY = r"""
+use super::*;
+use elvis_core::protocols::ipv4::ipv4_parsing::{ControlFlags, TypeOfService};
+use elvis_core::protocols::ipv4::{ProtocolNumber, Recipient};
+use elvis_core::protocols::arp::subnetting::{Ipv4Mask, Ipv4Net};
+use elvis_core::protocol::StartError;
+use elvis_core::session::SendError;
+use elvis_core::{run_internet_with_timeout, Network, Shutdown};
+use std::sync::Mutex;
+use tokio::sync::Barrier;
+static SEEN: Mutex<Vec<(usize, Vec<u8>)>> = Mutex::new(Vec::new());
+struct Dummy;
+impl Session for Dummy { fn send(&self, _m: Message, _ma: Arc<Machine>) -> Result<(), SendError> { Ok(()) } }
+/// host without ARP on one of the router's networks: whatever IPv4 datagram for `addr` reaches its interface is recorded
+struct Obs { k: usize, addr: Ipv4Address }
+#[async_trait::async_trait]
+impl Protocol for Obs {
+    async fn start(&self, _s: Shutdown, init: Arc<Barrier>, machine: Arc<Machine>) -> Result<(), StartError> {
+        machine.protocol::<Ipv4>().unwrap().listen(TypeId::of::<Obs>(), self.addr, machine.clone(), ProtocolNumber::UDP).unwrap();
+        init.wait().await; Ok(())
+    }
+    fn demux(&self, message: Message, _c: Arc<dyn Session>, _ctl: Control, _m: Arc<Machine>) -> Result<(), DemuxError> { SEEN.lock().unwrap().push((self.k, message.to_vec())); Ok(()) }
+}
+/// hands one datagram to the router's demux once the simulation is up
+struct Inject { hdr: Ipv4Header, payload: Vec<u8> }
+#[async_trait::async_trait]
+impl Protocol for Inject {
+    async fn start(&self, _s: Shutdown, init: Arc<Barrier>, machine: Arc<Machine>) -> Result<(), StartError> {
+        init.wait().await;
+        let mut control = Control::new(); control.insert(self.hdr);
+        let _ = machine.protocol::<ArpRouter>().unwrap().demux(Message::new(self.payload.clone()), Arc::new(Dummy), control, machine.clone());
+        Ok(())
+    }
+    fn demux(&self, _m: Message, _c: Arc<dyn Session>, _ctl: Control, _ma: Arc<Machine>) -> Result<(), DemuxError> { Ok(()) }
+}
+"""
+
+
+def router_task_sim_replay(v):
+    """simulation-level replay for the forwarding task: the real router on two real networks, one ARP-less observer host per network that
+    records every datagram for the destination reaching its interface; nobody answers ARP, so a correct router puts nothing on the wire"""
+    from mirx import native
+    u = v['unit']
+    vals = v.get('values', {})
+    g = lambda k, d=0: int(vals.get(k, d))
+    L = ['#[tokio::test(flavor = "multi_thread")]\nasync fn mirx_replay_0() {', '    println!("\\nREPLAY-BEGIN mirx_replay_0");',
+         '    let mut table: IpTable<(Option<Ipv4Address>, PciSlot)> = IpTable::new();']
+    for i in range(u['routes']):
+        addr, ln, gw = g(f'raddr{i}') & 0xffffffff, min(32, g(f'rlen{i}', 24)), g(f'gw{i}') & 0xffffffff
+        gws = f'Some(Ipv4Address::from({gw}u32))' if u['gateways'][i] else 'None'
+        L.append(f'    table.add(Ipv4Net::new(Ipv4Address::from({addr}u32), Ipv4Mask::from_bitcount({ln})), ({gws}, {u["slots"][i]}));')
+    dst, src, ttl = g('dst') & 0xffffffff, g('src') & 0xffffffff, max(2, g('ttl') & 0xff)
+    npay = u['payload']
+    lips = [g('lip0') & 0xffffffff, g('lip1') & 0xffffffff]
+    L += [f'    let dst = Ipv4Address::from({dst}u32); let lips = vec![Ipv4Address::from({lips[0]}u32), Ipv4Address::from({lips[1]}u32)];',
+          f'    let h = Ipv4Header {{ ihl: 5, type_of_service: TypeOfService::from(0u8), total_length: {20 + npay}, identification: {g("ident") & 0xffff}, fragment_offset: 0, flags: ControlFlags::new(true, true), time_to_live: {ttl}, protocol: 17, checksum: 0, source: Ipv4Address::from({src}u32), destination: dst }};',
+          f'    let payload: Vec<u8> = vec!{[g(f"pl{i}", 1) & 0xff for i in range(npay)]};',
+          '    let nets = [Network::basic(), Network::basic()];',
+          '    let mut own = IpTable::<Recipient>::new(); for ip in &lips { own.add_direct(*ip, Recipient::new(0, None)); }',
+          '    SEEN.lock().unwrap().clear();',
+          '    let machines = vec![',
+          '        elvis_core::new_machine_arc![Pci::new([nets[0].clone(), nets[1].clone()]), Ipv4::new(own), Arp::new(), ArpRouter::new(table, lips.clone()), Inject { hdr: h, payload: payload.clone() }],',
+          '        elvis_core::new_machine_arc![Pci::new([nets[0].clone()]), Ipv4::new(Default::default()), Obs { k: 0, addr: dst }],',
+          '        elvis_core::new_machine_arc![Pci::new([nets[1].clone()]), Ipv4::new(Default::default()), Obs { k: 1, addr: dst }],',
+          '    ];',
+          '    // ARP gives up after RESEND_TRIES * RESEND_DELAY = 2 s; anything (wrongly) sent after that still has a second to arrive',
+          '    let _ = run_internet_with_timeout(&machines, std::time::Duration::from_millis(3500)).await;',
+          '    let seen = SEEN.lock().unwrap().clone();',
+          '    println!("OP 0 RESULT {}", if seen.is_empty() { "AGREE".to_string() } else { format!("nobody answers ARP for the next hop, yet the datagram was put on the wire: hosts on interface(s) {:?} received it", seen.iter().map(|s| s.0).collect::<Vec<_>>()) });',
+          '}']
+    out, rc = native.run_shim_tests(ROUTER_SIM_REPLAY + '\n'.join(L), module='applications/arp_router.rs', test_filter='mirx_replay_0')
+    lines = native.op_lines(out)
+    if not lines:
+        return False, 'native simulation replay did not run: ' + out[-900:]
+    return ('AGREE' not in lines[0]), lines[0]
+
+
 def router_native_replay(v):
     """native run of ArpRouter::demux on a real Machine inside a tokio runtime.  Observable: panic / return value of demux, the route chosen
     by the real IpTable, the real re-serialised header, and - through Arp's resolve_hook - whether a forward was started and with which
     (local address, next hop, interface).  The packet bytes handed to the Pci session after ARP resolution are not observable."""
     from mirx import native
+    if ':task:sent-although-next-hop-unresolved' in v.get('key', ''):
+        return router_task_sim_replay(v)
     if ':task:' in v.get('key', ''):
         return False, ('this obligation is about what the spawned forwarding task does after `arp.resolve(..).await`; the function-level native replay cannot observe '
                        'the frames handed to the Pci session, so the symbolic counterexample stays unconfirmed')
